@@ -1168,6 +1168,19 @@ class Interp:
             a = self._apply(f[2], args, kwargs, simple, n, frame, st.with_cond(f[1], True))
             b = self._apply(f[3], args, kwargs, simple, n, frame, st.with_cond(f[1], False))
             return mk_ifexp(f[1], a, b)
+        # next((V(x) for x in xs if C(x)), default): V at the first element satisfying C, else the default - the search idiom, the
+        # same term the flag-and-break loop gives
+        if f == ("name", "next") and simple and not kwargs and len(args) == 2 and args[0][0] == "obj" \
+                and self.objs[args[0][1]].kind == "genexp":
+            se = single_element(self, args[0])
+            if se is not None and len(se[0]) == 1 and se[3].kind == "elem":
+                (L1,), extra, val, _ev = se
+                lp1 = self.loops[L1]
+                if lp1.kind == "comp" and not lp1.found and extra:
+                    lp1.found = [tuple(extra)]
+                    term = ("first", L1, val, args[1])
+                    self._event("call", ("call", f, args, kwargs), term, st, n, frame)
+                    return term
         # functools.partial(g, a, ..)(b, ..) is g(a, .., b, ..)
         if f[0] == "call" and f[1] in (("name", "partial"), ("attr", ("name", "functools"), "partial")) and f[2] and simple \
                 and not any(a[0] == "star" for a in f[2]) and not any(k == "**" for k, _ in f[3]):
